@@ -269,10 +269,24 @@ fn execute_found(sc: &Scenario, acc: &mut Acc) -> Result<Vec<Found>, String> {
                     Some(g) if g.data != exp.data => "silently_altered",
                     Some(_) => "silently_other_metadata",
                 };
+                // does the format give a reader any way to notice that this hunk is gone?
+                let hunk_detail = if touches_hunk && kind == DamageKind::Delete {
+                    let bv = &pre_view.bands[donor];
+                    let last = bv.hunks.keys().next_back() == Some(hunk_no);
+                    if bv.is_closed() {
+                        "[complete_band]"
+                    } else if last {
+                        "[incomplete_band,last_hunk]"
+                    } else {
+                        "[incomplete_band,inner_hunk]"
+                    }
+                } else {
+                    ""
+                };
                 out.push(Violation::new(
                     prop,
                     "broken_file_is_reported",
-                    format!("{class}:{kind:?}:{disc}"),
+                    format!("{class}{hunk_detail}:{kind:?}:{disc}"),
                     format!(
                         "{what}: b{id:04} {:?} lost its {} but the restore reported only {:?}",
                         e.apath,
